@@ -8,6 +8,7 @@ package main
 import (
 	"fmt"
 	"os"
+	"path/filepath"
 	"sort"
 	"strings"
 	"time"
@@ -118,11 +119,7 @@ func signature(class string, p *Prog) string {
 	if class == "build-error" || class == "host-panic" || class == "timeout" {
 		name = "rich-" + class
 	}
-	sig := name + ":" + strings.Join(sel, "-")
-	if k := knownFinding(p, class); k != "" {
-		sig = k
-	}
-	return sig
+	return name + ":" + strings.Join(sel, "-")
 }
 
 func genSize(c *Ctx) int {
@@ -149,8 +146,34 @@ func init() {
 		if c.Thorough() {
 			deadline = start.Add(9 * time.Minute)
 		}
+		if s := os.Getenv("RICH_DEADLINE"); s != "" {
+			n := 0
+			fmt.Sscan(s, &n)
+			deadline = start.Add(time.Duration(n) * time.Second)
+		}
+		// the probes of the recorded findings
+		var probes []*Prog
+		for _, f := range findings {
+			fm := map[string]any{}
+			for n, src := range f.probe {
+				fm[n] = src
+			}
+			probes = append(probes, progFromFiles(fm))
+		}
+		if pgc, psc, err := evaluate(probes); err == nil {
+			for i, f := range findings {
+				c.Count("evaluations")
+				if differs(pgc[i], psc[i]) {
+					sig := f.sig // a probe is a fixed program written for exactly this finding
+					c.Fail(sig, map[string]any{"sig": sig, "files": probes[i].Files(), "gc_out": clip(pgc[i].Out, 600), "gc_end": pgc[i].End, "scriggo_out": clip(psc[i].Out, 600), "scriggo_end": clip(psc[i].End, 300)})
+				}
+			}
+		}
 		reduced := 0
-		const batch = 60
+		batch := 24
+		if c.Thorough() {
+			batch = 60
+		}
 		seen := map[string]bool{}
 		for done := 0; done < n && time.Now().Before(deadline) && c.Stats["failures"] < 12; {
 			k := batch
@@ -199,6 +222,9 @@ func init() {
 				if q == p && reduced >= 4 {
 					sig += ":unreduced"
 				}
+				if k := knownFindingOf(qgc, qsc); k != "" {
+					sig = k
+				}
 				key := sig + "\x00" + q.Source()
 				if seen[key] {
 					continue
@@ -214,6 +240,27 @@ func init() {
 			}
 		}
 		c.Add("wall_ms", int(time.Since(start).Milliseconds()))
+	})
+
+	// rich-files evaluates the program in a directory (main.go, sub-directories): -arg dir
+	Register("rich-files", func(c *Ctx) {
+		fm := map[string]any{}
+		filepath.Walk(c.Arg, func(path string, info os.FileInfo, err error) error {
+			if err == nil && !info.IsDir() && strings.HasSuffix(path, ".go") {
+				b, _ := os.ReadFile(path)
+				rel, _ := filepath.Rel(c.Arg, path)
+				fm[filepath.ToSlash(rel)] = string(b)
+			}
+			return nil
+		})
+		c.Arg = ""
+		p := progFromFiles(fm)
+		gc, sc, err := evaluate([]*Prog{p})
+		if err != nil {
+			fmt.Fprintln(c.Out, "error:", err)
+			return
+		}
+		fmt.Fprintf(c.Out, "differs: %v\n---- gc: %s\n%s\n---- scriggo: %s\n%s\n", differs(gc[0], sc[0]), gc[0].End, gc[0].Out, sc[0].End, sc[0].Out)
 	})
 
 	// rich-one evaluates and reduces the program of a seed (debugging aid): -seed S -n size
@@ -260,6 +307,9 @@ func replay(c *Ctx, in map[string]any) {
 		sig, _ := in["sig"].(string)
 		if sig == "" {
 			sig = "rich-differs:replay"
+		}
+		if k := knownFindingOf(gc[0], sc[0]); k != "" {
+			sig = k
 		}
 		c.Fail(sig, map[string]any{"files": p.Files(), "gc_out": clip(gc[0].Out, 1500), "gc_end": gc[0].End, "scriggo_out": clip(sc[0].Out, 1500), "scriggo_end": clip(sc[0].End, 600)})
 	}
